@@ -5,6 +5,7 @@ protocol version x 4 states x 2 directions.  The remaining known versions are
 reported in the evidence, never judged.
 """
 from vf.runner import use_repo
+from vf import explore, interleave
 
 LEVEL = 'exploration'
 RULE = ('Complete enumeration of (supported protocol version, state, '
@@ -16,7 +17,13 @@ RULE = ('Complete enumeration of (supported protocol version, state, '
         'dict built by the matching PacketReactor must map every id to its '
         'owner, identically over repeated constructions.  A table is '
         'non-trivial when it holds at least two classes; distinct = distinct '
-        '(version, state, direction, id assignment) tables.')
+        '(version, state, direction, id assignment) tables.  Concurrency: two '
+        'threads build the tables of two different versions at the same '
+        'time (7 version pairs/tables), every source line of the packet '
+        'table modules, minecraft/utility and ConnectionContext a '
+        'scheduling point, all schedules with <= 1 '
+        '(thorough 2) preemptions: each thread gets the table it gets '
+        'alone, also afterwards.')
 ASSUMPTIONS = ['id tables are pure functions of the protocol version '
                '(checked: each table is built three times and compared)']
 
@@ -120,7 +127,111 @@ def check_table(ctx, version, direction, state, judged=True, context=None):
     return assign, bad
 
 
+# -- two connections building their tables at the same time ---------------------
+RACE_MODULES = ('minecraft.networking.packets.clientbound.play',
+                'minecraft.networking.packets.serverbound.play',
+                'minecraft.networking.packets.clientbound.login',
+                'minecraft.networking.packets.serverbound.login',
+                'minecraft.networking.packets.clientbound.status',
+                'minecraft.networking.packets.packet',
+                'minecraft.utility',
+                'minecraft.networking.connection:ConnectionContext')
+PRE = 1 << 30
+RACE_CASES = [(47, 757, 'clientbound', 'play'),
+              (757, 340, 'clientbound', 'play'),
+              (384, 385, 'clientbound', 'play'),
+              (754, PRE | 5, 'clientbound', 'play'),
+              (47, 757, 'serverbound', 'play'),
+              (578, 735, 'serverbound', 'play'),
+              (340, 757, 'clientbound', 'login')]
+
+
+def table_of(version, direction, state):
+    from minecraft.networking.connection import ConnectionContext
+    context = ConnectionContext(protocol_version=version)
+    get_packets = dict(((d, s), g) for d, s, g in tables())[direction, state]
+    # (classes visited in name order: the iteration order of a set of
+    # classes differs from process to process, and a schedule must mean the
+    # same thing in every worker and in a replay)
+    return [(c.get_id(context), c.__name__)
+            for c in sorted(get_packets(context), key=lambda c: c.__name__)]
+
+
+def race_body(W, params):
+    use_repo()
+    a, b, direction, state = (params['a'], params['b'], params['direction'],
+                              params['state'])
+    alone = [table_of(a, direction, state), table_of(b, direction, state)]
+    got = interleave.race(W, [lambda: table_of(a, direction, state),
+                              lambda: table_of(b, direction, state)])
+    after = [table_of(a, direction, state), table_of(b, direction, state)]
+    viol = []
+    for i, v in enumerate((a, b)):
+        if got[i] != ('ok', alone[i]):
+            viol.append(('concurrent table v=%d %s/%s' % (v, direction, state),
+                         'protocol %d %s %s built while another thread '
+                         'builds the table of protocol %d: %s; alone: %s'
+                         % (v, direction, state, (a, b)[1 - i],
+                            _diff(got[i], alone[i]), len(alone[i]))))
+        if after[i] != alone[i]:
+            viol.append(('table after concurrent use v=%d %s/%s'
+                         % (v, direction, state),
+                         'protocol %d %s %s differs after two threads built '
+                         'tables concurrently: %s'
+                         % (v, direction, state,
+                            _diff(('ok', after[i]), alone[i]))))
+    return {'outcome': (len(alone[0]), len(alone[1])), 'violations': viol}
+
+
+def _diff(got, want):
+    if got[0] != 'ok':
+        return 'raised %s' % (got[1],)
+    extra = [x for x in got[1] if x not in want]
+    missing = [x for x in want if x not in got[1]]
+    return 'unexpected entries %r, missing entries %r' % (extra[:4],
+                                                          missing[:4])
+
+
+def race_factory(params):
+    def scenario(prefix, expect, visited=None, budget=0):
+        return interleave.run(lambda W: race_body(W, params), prefix, expect,
+                              budget, modules=RACE_MODULES, horizon=400000)
+    return scenario
+
+
+def run_races(ctx, ex):
+    mc = use_repo()
+    bound = 2 if ctx.thorough else 1
+    execs = 0
+    for a, b, direction, state in RACE_CASES:
+        if a not in mc.SUPPORTED_PROTOCOL_VERSIONS or \
+                b not in mc.SUPPORTED_PROTOCOL_VERSIONS:
+            continue
+        res = ex.explore(ctx, race_factory,
+                         {'a': a, 'b': b, 'direction': direction,
+                          'state': state}, bound, label='race ')
+        execs += res.execs
+        ctx.cls('two threads building tables concurrently')
+    ctx.extra['concurrent'] = {
+        'cases': [list(c) for c in RACE_CASES], 'preemption_bound': bound,
+        'schedules_executed': execs,
+        'points': 'every source line of ' + ', '.join(RACE_MODULES)}
+
+
 def run(ctx):
+    use_repo()
+    ex = explore.Explorer(memo=False)   # forks its workers before anything runs
+    try:
+        _run(ctx)
+        # (tables that already depend on history would make schedules
+        # irreproducible: the walk above has reported them)
+        if all(k.startswith('collision ') for k in ctx.violations):
+            run_races(ctx, ex)
+    finally:
+        ex.close()
+
+
+def _run(ctx):
     mc = use_repo()
     supported = list(mc.SUPPORTED_PROTOCOL_VERSIONS)
     others = [v for v in mc.KNOWN_PROTOCOL_VERSIONS if v not in supported]
@@ -204,6 +315,16 @@ def run(ctx):
 
 
 def replay(ctx, case):
+    if 'choices' in case:
+        x = race_factory(case['params'])(list(case['choices']), None, None,
+                                         'replay')
+        res = x.result or {}
+        viol = list(res.get('violations', ()))
+        if x.failure is not None:
+            viol.append((x.failure[0], '%s: %s' % x.failure))
+        for key, what in viol:
+            ctx.violation('race %s' % key, what, case)
+        return
     if case.get('passes'):
         return run(ctx)        # an order effect needs the whole walk
     use_repo()
